@@ -105,6 +105,58 @@ func seedfixC07(c *Ctx) {
 	r.Floor("R-ENUM-CODE", 1)
 }
 
+// ---------------------------------------------------------------- C08
+
+// seedfixC08: R-DECIMAL-NO-WRAP — a decimal128 is never built from the result
+// of fixed-width integer arithmetic (i * 10^scale wraps silently in int64; the
+// precision check that follows then sees the already-wrapped value).
+func seedfixC08(c *Ctx) {
+	u, r := c.U, c.R
+	n := 0
+	for _, fn := range u.SrcFuncs() {
+		for _, cs := range u.Calls(fn, Or(HasSuffix("decimal128.FromI64"), HasSuffix("decimal128.FromU64"), HasSuffix("decimal128.New"), HasSuffix("decimal256.FromI64"))) {
+			n++
+			bad := ""
+			for i := 0; i < len(cs.Common().Args); i++ {
+				var walk func(v ssa.Value, d int)
+				walk = func(v ssa.Value, d int) {
+					if d > 5 || bad != "" {
+						return
+					}
+					switch x := v.(type) {
+					case *ssa.BinOp:
+						if x.Op == token.MUL || x.Op == token.SHL || x.Op == token.ADD || x.Op == token.SUB {
+							bad = u.Describe(x)
+							return
+						}
+						walk(x.X, d+1)
+						walk(x.Y, d+1)
+					case *ssa.Convert:
+						walk(x.X, d+1)
+					case *ssa.Phi:
+						for _, e := range x.Edges {
+							walk(e, d+1)
+						}
+					}
+				}
+				walk(cs.Arg(i), 0)
+			}
+			r.Check(bad == "", "R-DECIMAL-NO-WRAP", shortName(fn)+"|"+cs.Callee[strings.LastIndex(cs.Callee, ".")+1:]+"#"+itoa(n), u.Pos(cs.Instr.Pos()), "decimal built from an unmodified integer", "a decimal is built from fixed-width integer arithmetic "+bad+": the product wraps before any precision check can see it")
+		}
+	}
+	// the string path goes through the library parser with the column's precision and scale
+	if fn := c.Fn("R-DECIMAL-NO-WRAP", "decimalFromValue"); fn != nil {
+		ok := false
+		for _, cs := range u.Calls(fn, HasSuffix("decimal128.FromString")) {
+			if strings.HasSuffix(u.Describe(cs.Arg(1)), "dt.Precision") && strings.HasSuffix(u.Describe(cs.Arg(2)), "dt.Scale") {
+				ok = true
+			}
+		}
+		r.Check(ok, "R-DECIMAL-NO-WRAP", "decimalFromValue|parser", u.Pos(fn.Pos()), "decimal strings parsed by decimal128.FromString with the column's precision and scale", "decimalFromValue does not parse through decimal128.FromString(s, dt.Precision, dt.Scale)")
+	}
+	r.Floor("R-DECIMAL-NO-WRAP", 1)
+}
+
 // ---------------------------------------------------------------- C17
 
 // trimmedLast: v is the result of TrimSpace, possibly under ToLower and phis.
